@@ -198,6 +198,9 @@ def part_sql(ctx):
     rng = ctx.rng
     texts = list(G.exhaustive(G.A7, 3))
     texts += list(G.random_texts(rng, 300 if not ctx.thorough else 5000))
+    # shapes a renderer might be tempted to "simplify": already parenthesised, quoted, bracketed, empty
+    texts += ['(a) + (b)', '(x)', '()', '((x))', "(now()) + (interval '1 day')", '(a', 'a)', "'x'", '"x"', '`x`', '[x]', '{x}', ' x ', '(x) ', ' (x)',
+              'a -- b', 'a; b', 'a /* b */']
     texts = [t for t in dict.fromkeys(texts)]
     res = core.pmap(S.sql_job, texts)
     for t, r in zip(texts, res):
